@@ -17,15 +17,30 @@
    variables; a compiled function tries its clauses in order; dereferencing goes through the whole
    shared heap (Unify.unify on  own bindings ++ everything else that is bound; written unify_arrays2 / den2,
    which are proved equal to Unify.unify_arrays / Term.den in Engine/Deref.v and evaluate faster).
+   The database builtins asserta/1, assertz/1, retract/1, retractall/1 are run as the code runs them (YP.asserta,
+   assertz, retract, retractall after the repairs D3-D5, D14, D15; the same algorithm as Engine/DbProg.v, whose
+   definitions fact / ins / has_id / del_id / callable of Engine/Db.v are reused): the argument is dereferenced; a compound
+   term gives (name, args), an atom (name, []), anything else stores nothing (assert: succeeds; retract(all): fails);
+   the stored arguments are a fully dereferenced copy with variables of its own (Answer.__init__ = copy_term; canonical
+   variables 0..k-1 here, renamed at every match); every update builds a new list and publishes it under the key
+   (copy-on-write: the lists held by frames of suspended calls are snapshots); an Answer object has an identity
+   (fid); retract walks the snapshot taken when it was called and, for every fact that matches, removes THAT object
+   from the list that is current then, if it is still there, and runs the rest of the body with the bindings of the
+   match; retractall is one pass.  Database writes are never undone by backtracking: the fact store and the counter
+   of the facts created by the generator are threaded through the search in execution order.  Every read and write of
+   the fact store is entered in a log (key read / written), from which the atoms the code interns are taken and in
+   which the footprint of a generator step can be read off (Engine/SlotsWrite.v).
    What is abstracted: a compiled clause is (head arguments, list of goals) - conjunctions of calls
    only, head unification done with unify_arrays on a renamed copy (the compiler's aliasing of head
    variables is C01's business); the atoms a clause body creates while running are not entered into
    the atom table (not observable: atom() is idempotent until clear); a new cell gets the name
-   (engine, number of the query, counter) so that allocation does not depend on the schedule. *)
+   (engine, number of the query, counter) and a new Answer the identity (number of the query, counter), so that
+   allocation does not depend on the schedule; a definition chained (overwrite=False) onto one of the four database
+   builtins is outside the model (error 3). *)
 From Coq Require Import String.
 From Coq Require Import List Arith Bool Lia ZArith NArith Cantor.
 Import ListNotations.
-From YP Require Import Base.Str Term.Term Term.Show Unify.Unify Engine.Deref.
+From YP Require Import Base.Str Term.Term Term.Show Unify.Unify Engine.Deref Engine.Db.
 Local Open Scope string_scope.
 Local Open Scope list_scope.
 
@@ -106,7 +121,8 @@ Definition canon (l : list term) : list term := snd (canon_l [] l).
 (* ---------------------------------------------------------------- per-engine dictionaries *)
 Definition goal := (str * list term)%type.
 Definition clause := (list term * list goal)%type.           (* head arguments, body goals *)
-Inductive defn := DClauses (cls : list clause) | DOther.      (* DOther: a builtin the model does not run *)
+Inductive dbop := BAssert (append : bool) | BRetract | BRetractAll.
+Inductive defn := DClauses (cls : list clause) | DDb (b : dbop) | DOther.  (* DOther: a builtin the model does not run *)
 
 Definition gmax (g : goal) : nat := lmax (snd g).
 Definition clmax (c : clause) : nat := Nat.max (lmax (fst c)) (fold_right Nat.max 0 (map gmax (snd c))).
@@ -128,17 +144,26 @@ Section Assoc.
 End Assoc.
 
 Record db := mkdb {
-  facts : list (fkey * list (list term));     (* _predicates_store *)
+  facts : list (fkey * list fact);            (* _predicates_store; Db.fact = (identity of the Answer object, stored arguments) *)
   ctx : list (str * list defn);               (* eval_context: key -> chain of definitions *)
-  reserved : list str }.                      (* eval_blacklist *)
+  reserved : list str;                        (* eval_blacklist *)
+  nfid : nat }.                               (* Answer objects created by the caller's own assert operations so far *)
+
+(* identities of Answer objects: (0, k) the k-th fact asserted by an operation of the caller, (S c, k) the k-th
+   fact asserted by the c-th query the engine started *)
+Definition ufid (k : nat) : nat := Cantor.to_nat (0, k).
+Definition qfid (c k : nat) : nat := Cantor.to_nat (S c, k).
 
 Definition key_fixed (nm : str) (ar : nat) : str := nm ++ 95%N :: dec_of_nat ar.
 Definition key_var (nm : str) : str := nm ++ [95%N; 110%N].
 Definition ctx_key (nm : str) (ar : option nat) : str :=
   match ar with Some k => key_fixed nm k | None => key_var nm end.
 
-Definition find_facts (d : db) (nm : str) (ar : nat) : list (list term) :=
+Definition find_facts (d : db) (nm : str) (ar : nat) : list fact :=
   match aget fkey_eqb (nm, ar) (facts d) with Some l => l | None => [] end.
+(* _update_predicate: publish a new list under the key *)
+Definition set_facts (k : fkey) (l : list fact) (d : db) : db :=
+  mkdb (aset fkey_eqb k l (facts d)) (ctx d) (reserved d) (nfid d).
 
 (* YP.query, second half *)
 Definition find_function (d : db) (nm : str) (ar : nat) : option (list defn) :=
@@ -152,35 +177,45 @@ Definition reserved_names : list str :=
   map of_string ["__builtins__"; "variable"; "atom"; "functor"; "functor1"; "functor2"; "functor3";
                  "listpair"; "makelist"; "ATOM_NIL"; "unify"; "match_dynamic"; "query"; "True"; "False"].
 
-(* _set_builtin_predicates: '=' is  X = X ; the others are outside this model *)
+(* _set_builtin_predicates: '=' is  X = X ; the four database builtins; the others are outside this model *)
 Definition builtin_ctx : list (str * list defn) :=
   [ (key_fixed (of_string "=") 2, [DClauses [ ([TVar 0; TVar 0], []) ] ]);
     (key_fixed [92%N; 61%N] 2, [DOther]);
     (key_fixed (of_string "findall") 3, [DOther]);
     (key_var (of_string "call"), [DOther]);
     (key_fixed (of_string "once") 1, [DOther]);
-    (key_fixed (of_string "assertz") 1, [DOther]);
-    (key_fixed (of_string "asserta") 1, [DOther]);
-    (key_fixed (of_string "retract") 1, [DOther]);
-    (key_fixed (of_string "retractall") 1, [DOther]) ].
+    (key_fixed (of_string "assertz") 1, [DDb (BAssert true)]);
+    (key_fixed (of_string "asserta") 1, [DDb (BAssert false)]);
+    (key_fixed (of_string "retract") 1, [DDb BRetract]);
+    (key_fixed (of_string "retractall") 1, [DDb BRetractAll]) ].
 
 (* ---------------------------------------------------------------- cursors = suspended query generators *)
 Inductive frame :=      (* tr: the bindings this query has made on the path to the frame; cnt: cells in use there *)
 | FGoals (tr : store) (cnt : nat) (gs : list goal)                                     (* continue with these goals *)
 | FFact (tr : store) (cnt : nat) (args : list term) (f : list term) (rest : list goal) (* next clause of a fact snapshot *)
 | FFun (tr : store) (cnt : nat) (fn : option (list defn)) (args : list term) (rest : list goal) (* after the facts: the function that was looked up when the call started *)
-| FClause (tr : store) (cnt : nat) (args : list term) (cl : clause) (rest : list goal). (* next clause of a called function *)
+| FClause (tr : store) (cnt : nat) (args : list term) (cl : clause) (rest : list goal) (* next clause of a called function *)
+| FRet (tr : store) (cnt : nat) (nm : str) (args : list term) (f : fact) (rest : list goal). (* YP.retract: next Answer of its snapshot *)
 
 Record cursor := mkcur {
-  cown : nat;             (* number of the query: names the cells it allocates *)
+  cown : nat;             (* number of the query: names the cells it allocates and the facts it asserts *)
   cargs : list term;      (* the argument terms of the query: the answer is read from them *)
   cfr : list frame;       (* what is still to be tried; [] = finished or closed *)
-  ctrail : store }.       (* the bindings of the current answer (they are in the heap) *)
+  ctrail : store;         (* the bindings of the current answer (they are in the heap) *)
+  cnf : nat }.            (* facts asserted by this generator so far *)
+
+(* the log of a generator step: every access to the fact store.  ewr: the list under the key was replaced;
+   eint: the code calls self.atom(name) at this point (the atom is interned) *)
+Record ev := mkev { ewr : bool; eint : bool; ekey : fkey }.
+Definition names_of (lg : list ev) : list str := map (fun e => fst (ekey e)) (filter eint lg).
+
+(* what the search threads through in execution order: fact store, number of facts created, stack, log *)
+Record mstate := mkms { mdb : db; mnf : nat; mfr : list frame; mlog : list ev }.
 
 Inductive sres :=
-| SAns (tr : store) (fr : list frame) (names : list str)
-| SDone (names : list str)
-| SErr (code : nat).       (* 0 search fuel, 1 unify fuel, 2 cyclic (unspecified), 3 builtin outside the model *)
+| SAns (tr : store) (m : mstate)
+| SDone (m : mstate)
+| SErr (code : nat) (m : mstate). (* 0 search fuel, 1 unify fuel, 2/9 cyclic (unspecified), 3 builtin outside the model *)
 
 Definition UF : nat := 300.     (* fuel handed to Unify.unify_arrays *)
 
@@ -191,48 +226,134 @@ Definition clauses_of (ds : list defn) : option (list clause) :=
   fold_right (fun d acc => match d, acc with
                            | DClauses c, Some r => Some (c ++ r)
                            | _, _ => None end) (Some []) ds.
+Definition db_builtin (ds : list defn) : option dbop :=
+  match ds with [DDb b] => Some b | _ => None end.
 
-(* resume the generator: depth first, until the next yield.  Cells allocated on a branch that has been
-   left are unreachable (their Variable objects are gone), so the counter is per frame: the k-th cell
-   in use on the current path has index k. *)
-Fixpoint search (fuel : nat) (d : db) (h0 : store) (fresh : nat -> nat) (fr : list frame) (names : list str) : sres :=
+(* which facts stay: Answer.match for each, bindings undone after each (retractall; retract run to exhaustion) *)
+Fixpoint retract_list (h : store) (fresh : nat -> nat) (args : list term) (fs : list fact)
+  : option (list fact) :=
+  match fs with
+  | [] => Some []
+  | f :: r =>
+      match unify_arrays2 UF h args (map (rn fresh) (fargs f)), retract_list h fresh args r with
+      | UOk _, Some r' => Some r'
+      | UFail, Some r' => Some (f :: r')
+      | _, _ => None
+      end
+  end.
+
+Inductive kres := KGo (m : mstate) | KAns (tr : store) (m : mstate) | KDone | KErr (code : nat) (m : mstate).
+
+Definition is_fun (t : term) : bool := match t with TFun _ _ => true | _ => false end.
+
+(* one of the four database builtins called with the argument t under the bindings tr (YP.asserta / assertz / retract /
+   retractall); r = the rest of the stack, gs = the rest of the body *)
+Definition dbstep (h0 : store) (fresh newid : nat -> nat) (m : mstate) (b : dbop)
+    (tr : store) (cnt : nat) (t : term) (gs : list goal) (r : list frame) : kres :=
+  let d := mdb m in
+  let t' := den2 (tr ++ h0) t in
+  match b with
+  | BAssert append =>
+      match callable t' with
+      | None => KGo (mkms d (mnf m) (FGoals tr cnt gs :: r) (mlog m))
+      | Some (nm, fa) =>
+          let k := (nm, length fa) in
+          let f := mkfact (newid (mnf m)) (canon fa) in
+          KGo (mkms (set_facts k (ins (negb append) f (find_facts d nm (length fa))) d) (S (mnf m))
+                    (FGoals tr cnt gs :: r) (mkev true (is_fun t') k :: mlog m))
+      end
+  | BRetract =>
+      match callable t' with
+      | None => KGo (mkms d (mnf m) r (mlog m))
+      | Some (nm, fa) =>
+          KGo (mkms d (mnf m) (map (fun f => FRet tr cnt nm fa f gs) (find_facts d nm (length fa)) ++ r)
+                    (mkev false false (nm, length fa) :: mlog m))
+      end
+  | BRetractAll =>
+      match callable t' with
+      | None => KGo (mkms d (mnf m) r (mlog m))
+      | Some (nm, fa) =>
+          match retract_list (tr ++ h0) (fun i => fresh (cnt + i)) fa (find_facts d nm (length fa)) with
+          | None => KErr 9 (mkms d (mnf m) (mfr m) (mkev false false (nm, length fa) :: mlog m))
+          | Some keep =>
+              KGo (mkms (set_facts (nm, length fa) keep d) (mnf m) (FGoals tr cnt gs :: r)
+                        (mkev true true (nm, length fa) :: mlog m))
+          end
+      end
+  end.
+
+(* one step of the resumed generator.  Cells allocated on a branch that has been left are unreachable (their
+   Variable objects are gone), so the counter is per frame: the k-th cell in use on the current path has index k. *)
+Definition sstep (h0 : store) (fresh newid : nat -> nat) (m : mstate) : kres :=
+  let d := mdb m in
+  match mfr m with
+  | [] => KDone
+  | FGoals tr cnt [] :: r => KAns tr (mkms d (mnf m) r (mlog m))
+  | FGoals tr cnt ((nm, args) :: gs) :: r =>
+      KGo (mkms d (mnf m)
+                (map (fun f => FFact tr cnt args (fargs f) gs) (find_facts d nm (length args))
+                   ++ FFun tr cnt (find_function d nm (length args)) args gs :: r)
+                (mkev false true (nm, length args) :: mlog m))
+  | FFact tr cnt args f gs :: r =>
+      let f' := map (rn (fun i => fresh (cnt + i))) f in
+      match unify_arrays2 UF (tr ++ h0) args f' with
+      | UOk s' => KGo (mkms d (mnf m) (FGoals (strip s' h0) (cnt + lmax f) gs :: r) (mlog m))
+      | UFail => KGo (mkms d (mnf m) r (mlog m))
+      | UOof => KErr 1 m
+      | UCyc => KErr 2 m
+      end
+  | FFun tr cnt fn args gs :: r =>
+      match fn with
+      | None => KGo (mkms d (mnf m) r (mlog m))
+      | Some ds =>
+          match db_builtin ds with
+          | Some b =>
+              match args with
+              | [t] => dbstep h0 fresh newid m b tr cnt t gs r
+              | _ => KErr 3 m
+              end
+          | None =>
+              match clauses_of ds with
+              | None => KErr 3 m
+              | Some cls => KGo (mkms d (mnf m) (map (fun c => FClause tr cnt args c gs) cls ++ r) (mlog m))
+              end
+          end
+      end
+  | FClause tr cnt args cl gs :: r =>
+      let cl' := rn_clause (fun i => fresh (cnt + i)) cl in
+      match unify_arrays2 UF (tr ++ h0) args (fst cl') with
+      | UOk s' => KGo (mkms d (mnf m) (FGoals (strip s' h0) (cnt + clmax cl) (snd cl' ++ gs) :: r) (mlog m))
+      | UFail => KGo (mkms d (mnf m) r (mlog m))
+      | UOof => KErr 1 m
+      | UCyc => KErr 2 m
+      end
+  | FRet tr cnt nm args f gs :: r =>
+      let f' := map (rn (fun i => fresh (cnt + i))) (fargs f) in
+      match unify_arrays2 UF (tr ++ h0) args f' with
+      | UOk s' =>
+          let cur := find_facts d nm (length args) in
+          if has_id (fid f) cur
+          then KGo (mkms (set_facts (nm, length args) (del_id (fid f) cur) d) (mnf m)
+                         (FGoals (strip s' h0) (cnt + lmax (fargs f)) gs :: r)
+                         (mkev true true (nm, length args) :: mlog m))
+          else KGo (mkms d (mnf m) r (mkev false false (nm, length args) :: mlog m))
+      | UFail => KGo (mkms d (mnf m) r (mlog m))
+      | UOof => KErr 1 m
+      | UCyc => KErr 2 m
+      end
+  end.
+
+(* resume the generator: depth first, until the next yield *)
+Fixpoint search (fuel : nat) (h0 : store) (fresh newid : nat -> nat) (m : mstate) : sres :=
   match fuel with
-  | O => SErr 0
+  | O => SErr 0 m
   | S fuel =>
-    match fr with
-    | [] => SDone names
-    | FGoals tr cnt [] :: r => SAns tr r names
-    | FGoals tr cnt ((nm, args) :: gs) :: r =>
-        search fuel d h0 fresh
-               (map (fun f => FFact tr cnt args f gs) (find_facts d nm (length args))
-                  ++ FFun tr cnt (find_function d nm (length args)) args gs :: r)
-               (nm :: names)
-    | FFact tr cnt args f gs :: r =>
-        let f' := map (rn (fun i => fresh (cnt + i))) f in
-        match unify_arrays2 UF (tr ++ h0) args f' with
-        | UOk s' => search fuel d h0 fresh (FGoals (strip s' h0) (cnt + lmax f) gs :: r) names
-        | UFail => search fuel d h0 fresh r names
-        | UOof => SErr 1
-        | UCyc => SErr 2
-        end
-    | FFun tr cnt fn args gs :: r =>
-        match fn with
-        | None => search fuel d h0 fresh r names
-        | Some ds =>
-            match clauses_of ds with
-            | None => SErr 3
-            | Some cls => search fuel d h0 fresh (map (fun c => FClause tr cnt args c gs) cls ++ r) names
-            end
-        end
-    | FClause tr cnt args cl gs :: r =>
-        let cl' := rn_clause (fun i => fresh (cnt + i)) cl in
-        match unify_arrays2 UF (tr ++ h0) args (fst cl') with
-        | UOk s' => search fuel d h0 fresh (FGoals (strip s' h0) (cnt + clmax cl) (snd cl' ++ gs) :: r) names
-        | UFail => search fuel d h0 fresh r names
-        | UOof => SErr 1
-        | UCyc => SErr 2
-        end
-    end
+      match sstep h0 fresh newid m with
+      | KGo m' => search fuel h0 fresh newid m'
+      | KAns tr m' => SAns tr m'
+      | KDone => SDone m
+      | KErr k m' => SErr k m'
+      end
   end.
 
 (* the finally-blocks of the suspended unify generators of this cursor: its cells become unbound *)
@@ -241,31 +362,34 @@ Definition unbind (tr h : store) : store :=
 
 Inductive cres := RAns (vals : list term) | RDone | RErr (code : nat).
 
-Definition cnext (fuel : nat) (d : db) (fresh : nat -> nat) (h : store) (c : cursor) : cursor * store * cres * list str :=
+(* next(generator): new generator, new heap, result, log, new fact store.  A step that ends in a model error leaves
+   everything as it was (such cases are outside the comparison) *)
+Definition cnext (fuel : nat) (d : db) (fresh : nat -> nat) (h : store) (c : cursor)
+  : cursor * store * cres * list ev * db :=
   let h0 := unbind (ctrail c) h in
-  match search fuel d h0 fresh (cfr c) [] with
-  | SAns tr fr names =>
-      (mkcur (cown c) (cargs c) fr tr, tr ++ h0, RAns (map (den2 (tr ++ h0)) (cargs c)), names)
-  | SDone names => (mkcur (cown c) (cargs c) [] [], h0, RDone, names)
-  | SErr k => (c, h, RErr k, [])
+  match search fuel h0 fresh (qfid (cown c)) (mkms d (cnf c) (cfr c) []) with
+  | SAns tr m =>
+      (mkcur (cown c) (cargs c) (mfr m) tr (mnf m), tr ++ h0, RAns (map (den2 (tr ++ h0)) (cargs c)), mlog m, mdb m)
+  | SDone m => (mkcur (cown c) (cargs c) [] [] (mnf m), h0, RDone, mlog m, mdb m)
+  | SErr k m => (c, h, RErr k, mlog m, d)
   end.
 
 Definition cclose (h : store) (c : cursor) : cursor * store :=
-  (mkcur (cown c) (cargs c) [] [], unbind (ctrail c) h).
+  (mkcur (cown c) (cargs c) [] [] (cnf c), unbind (ctrail c) h).
 
 Definition cstart (ow : nat) (nm : str) (args : list term) : cursor :=
-  mkcur ow args [FGoals [] 0 [(nm, args)]] [].
+  mkcur ow args [FGoals [] 0 [(nm, args)]] [] 0.
 
 (* run to exhaustion, collecting the answers *)
-Fixpoint cdrain (n fuel : nat) (d : db) (fresh : nat -> nat) (h : store) (c : cursor) (acc : list (list term)) (names : list str)
-  : cursor * store * list (list term) * option nat * list str :=
+Fixpoint cdrain (n fuel : nat) (d : db) (fresh : nat -> nat) (h : store) (c : cursor) (acc : list (list term)) (lg : list ev)
+  : cursor * store * list (list term) * option nat * list ev * db :=
   match n with
-  | O => (c, h, rev acc, Some 0, names)
+  | O => (c, h, rev acc, Some 0, lg, d)
   | S n =>
       match cnext fuel d fresh h c with
-      | (c', h', RAns vals, nm) => cdrain n fuel d fresh h' c' (vals :: acc) (nm ++ names)
-      | (c', h', RDone, nm) => (c', h', rev acc, None, nm ++ names)
-      | (c', h', RErr k, nm) => (c', h', rev acc, Some (S k), names)
+      | (c', h', RAns vals, l1, d') => cdrain n fuel d' fresh h' c' (vals :: acc) (l1 ++ lg)
+      | (c', h', RDone, l1, d') => (c', h', rev acc, None, l1 ++ lg, d')
+      | (c', h', RErr k, l1, d') => (c', h', rev acc, Some (S k), l1 ++ lg, d')
       end
   end.
 
@@ -278,7 +402,7 @@ Record engine := mkeng {
   nstart : nat }.                (* queries / updates started so far (for owner tags) *)
 
 Definition init_engine : engine :=
-  mkeng [(of_string "[]", 0)] 1 (mkdb [] builtin_ctx reserved_names) [] 0.
+  mkeng [(of_string "[]", 0)] 1 (mkdb [] builtin_ctx reserved_names 0) [] 0.
 
 (* YP.atom: setdefault *)
 Definition intern (nm : str) (a : list (str * nat) * nat) : list (str * nat) * nat :=
@@ -308,19 +432,6 @@ Inductive op :=
 | ODrain (q : nat)
 | OPeek (ts : list term).                                     (* get_value of terms over the user's variables, at any moment *)
 
-(* which facts match: Answer.match for each, bindings undone after each *)
-Fixpoint retract_list (h : store) (fresh : nat -> nat) (args : list term) (fs : list (list term))
-  : option (list (list term)) :=
-  match fs with
-  | [] => Some []
-  | f :: r =>
-      match unify_arrays2 UF h args (map (rn fresh) f), retract_list h fresh args r with
-      | UOk _, Some r' => Some r'
-      | UFail, Some r' => Some (f :: r')
-      | _, _ => None
-      end
-  end.
-
 Definition load_one (overwrite : bool) (c : list (str * list defn)) (p : str * nat * list clause) :=
   let '(nm, ar, cls) := p in
   let k := key_fixed nm ar in
@@ -342,10 +453,9 @@ Definition estep (fuel : nat) (n eid : nat) (o : op) (e : engine) (h : store) : 
       let a := intern nm (atoms e, natom e) in
       (with_atoms e a, h, otag "atom" [oopt onat (aget str_eqb nm (fst a))])
   | OAssert append nm args =>
-      let vals := canon (map (den2 h) (map u args)) in
-      let old := find_facts (edb e) nm (length args) in
-      let new := if append then old ++ [vals] else vals :: old in
-      let d := mkdb (aset fkey_eqb (nm, length args) new (facts (edb e))) (ctx (edb e)) (reserved (edb e)) in
+      let f := mkfact (ufid (nfid (edb e))) (canon (map (den2 h) (map u args))) in
+      let new := ins (negb append) f (find_facts (edb e) nm (length args)) in
+      let d := mkdb (aset fkey_eqb (nm, length args) new (facts (edb e))) (ctx (edb e)) (reserved (edb e)) (S (nfid (edb e))) in
       (with_atoms (with_db e d) (intern nm (atoms e, natom e)), h, otag "ok" [])
   | ORetract nm args =>
       let old := find_facts (edb e) nm (length args) in
@@ -353,19 +463,21 @@ Definition estep (fuel : nat) (n eid : nat) (o : op) (e : engine) (h : store) : 
       | None => (e, h, otag "err" [onat 9])
       | Some new =>
           let d := match aget fkey_eqb (nm, length args) (facts (edb e)) with
-                   | Some _ => mkdb (aset fkey_eqb (nm, length args) new (facts (edb e))) (ctx (edb e)) (reserved (edb e))
+                   | Some _ => set_facts (nm, length args) new (edb e)
                    | None => edb e end in
           (bump (with_atoms (with_db e d) (intern nm (atoms e, natom e))), h, otag "ok" [])
       end
   | ORegister nm ar rows =>
       let d := mkdb (facts (edb e)) (aset str_eqb (ctx_key nm ar) [DClauses (map (fun r => (r, [])) rows)] (ctx (edb e)))
-                    (reserved (edb e)) in
+                    (reserved (edb e)) (nfid (edb e)) in
       (with_db e d, h, otag "ok" [])
   | OLoad overwrite script =>
-      let d := mkdb (facts (edb e)) (fold_left (load_one overwrite) script (ctx (edb e))) (reserved (edb e)) in
+      let d := mkdb (facts (edb e)) (fold_left (load_one overwrite) script (ctx (edb e))) (reserved (edb e)) (nfid (edb e)) in
       (with_db e d, h, otag "ok" [])
   | OClear =>
-      (mkeng [] (natom e) (mkdb [] builtin_ctx (reserved (edb e))) (cursors e) (nstart e), h, otag "ok" [])
+      (* clear(): new tables; ATOM_NIL = atom("[]") of the new atom table (/repo 326f202) *)
+      (mkeng [(of_string "[]", natom e)] (S (natom e)) (mkdb [] builtin_ctx (reserved (edb e)) (nfid (edb e))) (cursors e) (nstart e),
+       h, otag "ok" [])
   | OStart q nm args =>
       let h1 := match aget Nat.eqb q (cursors e) with Some c => snd (cclose h c) | None => h end in
       let c := cstart (nstart e) nm (map u args) in
@@ -374,8 +486,8 @@ Definition estep (fuel : nat) (n eid : nat) (o : op) (e : engine) (h : store) : 
       match aget Nat.eqb q (cursors e) with
       | None => (e, h, otag "noslot" [])
       | Some c =>
-          let '(c', h', r, names) := cnext fuel (edb e) (ccell n eid (cown c)) h c in
-          (with_atoms (with_cursors e (aset Nat.eqb q c' (cursors e))) (intern_all names (atoms e, natom e)),
+          let '(c', h', r, lg, d') := cnext fuel (edb e) (ccell n eid (cown c)) h c in
+          (with_atoms (with_db (with_cursors e (aset Nat.eqb q c' (cursors e))) d') (intern_all (names_of lg) (atoms e, natom e)),
            h', res_obs r)
       end
   | OClose q =>
@@ -389,8 +501,8 @@ Definition estep (fuel : nat) (n eid : nat) (o : op) (e : engine) (h : store) : 
       match aget Nat.eqb q (cursors e) with
       | None => (e, h, otag "noslot" [])
       | Some c =>
-          let '(c', h', answers, err, names) := cdrain fuel fuel (edb e) (ccell n eid (cown c)) h c [] [] in
-          (with_atoms (with_cursors e (aset Nat.eqb q c' (cursors e))) (intern_all names (atoms e, natom e)),
+          let '(c', h', answers, err, lg, d') := cdrain fuel fuel (edb e) (ccell n eid (cown c)) h c [] [] in
+          (with_atoms (with_db (with_cursors e (aset Nat.eqb q c' (cursors e))) d') (intern_all (names_of lg) (atoms e, natom e)),
            h', otag "all" [OL (map (fun vals => OL (map term_obs vals)) answers); oopt onat err])
       end
   | OPeek ts => (e, h, otag "peek" (map term_obs (map (den2 h) (map u ts))))
